@@ -1534,7 +1534,9 @@ void harness_init(Params const& p)
   std::string part = param_str(p, "part", "both");
   g_part = part == "direct" ? 1 : part == "e2e" ? 2 : 0;
   g_printable_check = param_int(p, "printable_check", 1) != 0;
-  setenv("TZ", "UTC", 1); // Timezone::LocalTime cases: the libc reference uses localtime_r under the same zone
+  // Timezone::LocalTime cases: the libc reference uses localtime_r under the same zone. A zone that differs from GMT by a
+  // non-integral number of hours and has DST, so that a logger formatting in the wrong zone always shows
+  setenv("TZ", param_str(p, "tz", "America/St_Johns").c_str(), 1);
   tzset();
 }
 
